@@ -154,3 +154,29 @@ Proof.
   destruct (new_step RA ph ex lg c J _ _) as [[b st']|]; [|discriminate].
   destruct (new_loop RA ph ex lg fuel c J st' _); try discriminate. inversion H. discriminate.
 Qed.
+
+(* ---- frequency grid at the reals for the vectorised and the three-stage schedulers (C03):
+   r*L = fs exactly, strictly increasing from the first frequency, below Nyquist, b = f*L/fs ---- *)
+Open Scope R_scope.
+Theorem vec_grid_ok sq fuel (c : cfg RA) grid bs : admissible c -> vec_bins RA sq fuel c grid = Ok bs ->
+  chain RA (fmin_vec RA c) bs /\ increasing_from (fmin_vec RA c) bs /\
+  Forall (fun b : bin RA => br b * IZR (bL b) = cfs c /\ bf b < cfs c / 2 /\ bb b = bf b * IZR (bL b) / cfs c) bs.
+Proof.
+  intros Ha H. unfold vec_bins in H.
+  destruct (vec_walk_struct RA sq fuel c grid _ bs H) as [Hc Hd].
+  pose proof (vec_walk_safe sq fuel c grid _ bs Ha H) as Hs.
+  assert (Hp : Forall (fun b : bin RA => 0 < IZR (bL b)) bs).
+  { eapply Forall_impl; [|exact Hs]. intros b [Hi _]. eapply bin_int_ok_L_pos; exact Hi. }
+  destruct (chain_increasing c bs _ (adm_fs c Ha) Hc Hd Hp) as [Hi HF]. auto.
+Qed.
+Theorem new_grid_ok ph ex lg fuel (c : cfg RA) J bs : admissible c -> new_bins RA ph ex lg fuel c J = Ok bs ->
+  chain RA (fmin RA c) bs /\ increasing_from (fmin RA c) bs /\
+  Forall (fun b : bin RA => br b * IZR (bL b) = cfs c /\ bf b < cfs c / 2 /\ bb b = bf b * IZR (bL b) / cfs c) bs.
+Proof.
+  intros Ha H. unfold new_bins in H.
+  destruct (new_loop_struct RA ph ex lg fuel c J _ _ bs H) as [Hc Hd].
+  pose proof (new_loop_safe ph ex lg fuel c J _ _ bs Ha H) as Hs.
+  assert (Hp : Forall (fun b : bin RA => 0 < IZR (bL b)) bs).
+  { eapply Forall_impl; [|exact Hs]. intros b [Hi _]. eapply bin_int_ok_L_pos; exact Hi. }
+  destruct (chain_increasing c bs _ (adm_fs c Ha) Hc Hd Hp) as [Hi HF]. auto.
+Qed.
